@@ -131,6 +131,35 @@ static int hash_split(const vec *S, int res) {
     return found;
 }
 
+/* F10 signature: an edge-connected component whose cells' boundary vertices leave no gap of 180 degrees in longitude — its
+ * outline has edges on both sides of the antimeridian and spans more than half a turn (only cells next to a polar cell at
+ * res 0-1, or an open ring of cells around a pole, are that wide without reaching the pole). */
+static int cmp_dbl(const void *a, const void *b) {
+    double x = *(const double *)a, y = *(const double *)b;
+    return x < y ? -1 : x > y;
+}
+static int wide_component(const vec *S, int64_t *uf) {
+    double *lng = malloc((size_t)S->n * MAX_CELL_BNDRY_VERTS * sizeof(double));
+    int wide = 0;
+    for (int64_t root = 0; root < S->n && !wide; root++) {
+        if (uf_find(uf, root) != root) continue;
+        int64_t m = 0;
+        for (int64_t i = 0; i < S->n; i++) {
+            vf_cell A;
+            if (uf_find(uf, i) != root || vf_cell_load(S->a[i], &A)) continue;
+            for (int k = 0; k < A.n; k++) lng[m++] = A.g[k].lng;
+        }
+        if (m < 3) continue;
+        qsort(lng, (size_t)m, sizeof(double), cmp_dbl);
+        double gap = lng[0] + 2 * M_PI - lng[m - 1];
+        for (int64_t i = 1; i < m; i++)
+            if (lng[i] - lng[i - 1] > gap) gap = lng[i] - lng[i - 1];
+        if (gap < M_PI) wide = 1;
+    }
+    free(lng);
+    return wide;
+}
+
 static int64_t n_sets, n_cells_in;
 
 /* Sets whose outline has no planar reading (they reach or encircle a pole, or wrap the globe) are outside the geometric part
@@ -360,9 +389,13 @@ static void judge_set(vec *S, const char *what, int corpus) {
     }
     vfa_reset();
     if (prob[0]) {
-        const char *sig = hash_split(S, res) ? "vertex-hash-split" : "";
-        vf_violation(corpus ? "corpus-outline" : "outline", "cellsToLinkedMultiPolygon", key, corpus ? "" : sig, "%s (%" PRId64 " cells, res %d): %s%s", what, S->n, res, prob,
-                     *sig ? " [two adjacent input cells have coinciding vertices in different hash buckets]" : "");
+        /* attribution: "wide-component" is the signature of open finding F10; the bucket-split note is a diagnostic only
+         * (F2 is repaired: nothing is matched by it any more) */
+        const char *sig = wide_component(S, uf) ? "wide-component" : "";
+        int split = hash_split(S, res);
+        vf_violation(corpus ? "corpus-outline" : "outline", "cellsToLinkedMultiPolygon", key, sig, "%s (%" PRId64 " cells, res %d): %s%s%s", what, S->n, res, prob,
+                     *sig ? " [a component spans more than 180 degrees of longitude]" : "",
+                     split ? " [two adjacent input cells have coinciding vertices in different buckets of the vertex hash]" : "");
     }
     if (S->n > 1) vf_distinct(key);
     vf_sample("%s: %" PRId64 " cells res %d -> %" PRId64 " component(s), %" PRId64 " loop(s), %" PRId64 " outline vertices: %s", what, S->n, res, ncomp, exp_loops, exp_vertices, prob[0] ? prob : "as expected");
@@ -554,10 +587,35 @@ static void witness_f2(void) {
     free(S.a);
 }
 
+/* witness of open finding F10: the res-0 neighbours 8003 + 8007 (next to the north polar cell 8001, which is NOT in the set:
+ * the footprint does not reach the pole) outline to one loop from longitude 145.6 E eastwards across the antimeridian to
+ * 0.3 E — 214 degrees wide; with a second component (8029) present the normalisation step has to orient the loops, takes the
+ * wide one for a hole and gives up with E_FAILED. */
+static void witness_f10(void) {
+    vec S = {0};
+    push(&S, 0x8003fffffffffffULL);
+    push(&S, 0x8007fffffffffffULL);
+    push(&S, 0x8029fffffffffffULL);
+    vf_case("witness-f10");
+    LinkedGeoPolygon out;
+    memset(&out, 0, sizeof out);
+    H3Error e = cellsToLinkedMultiPolygon(S.a, 3, &out);
+    int polys = 0;
+    if (!e) {
+        for (LinkedGeoPolygon *p = &out; p; p = p->next) polys++;
+        destroyLinkedMultiPolygon(&out);
+    }
+    vfa_reset();
+    vf_witness("F10", e || polys != 2, "cells 8003fffffffffff + 8007fffffffffff (neighbours, 214 degrees wide) and 8029fffffffffff: rc=%u, %d polygon(s)", e, polys);
+    judge_set(&S, "witness-f10: 08003fffffffffff 08007fffffffffff 08029fffffffffff", 0); /* through the oracle: must carry the signature */
+    free(S.a);
+}
+
 static void run(void) {
     vf_rng r;
     vf_rng_stream(&r, 16);
     if (VF.shard == 0) witness_f2();
+    if (VF.shard == 0) witness_f10();
     for (int res = 0; res <= VF_T(2, 3); res++) corpus(res);
     int n = VF_T(500, 8000);
     for (int i = 0; i < n; i++) set_from_seed(vf_u64(&r));
@@ -577,6 +635,8 @@ static void replay(const char *spec) {
         rings_from_seed(a);
     else if (sscanf(spec, "globe %" SCNx64, &a) == 1)
         globe_minus_patches(a);
+    else if (!strncmp(spec, "witness-f10", 11))
+        witness_f10();
     else if (sscanf(spec, "pair %" SCNx64 " %" SCNx64, &a, &b) == 2) {
         push(&S, a);
         push(&S, b);
